@@ -504,5 +504,5 @@ def parts(tier, seed):
     return [
         enum_part('routing-table', table(q), run_request, exhaustive=True),
         enum_part('culture-conventions', convention_cases, run_convention, exhaustive=True),
-        machine_part('histories', make_machine, 80 if q else 1500, steps=30 if q else 50, min_shard=5, replay=replay_trace, hang_s=120),
+        machine_part('histories', make_machine, 80 if q else 400, steps=30 if q else 40, min_shard=5, replay=replay_trace, hang_s=120 if q else 300),
     ]
